@@ -174,7 +174,11 @@ pub fn gen_plan(rng: &mut Rng, focus: &str, thorough: bool) -> DiskPlan {
     }
     let redb = focus == "C18";
     let crash = match focus {
-        "C10" => Crash::EnumerateFlush { phase: rng.range(1, n_phases as u64 - 1) as usize },
+        // mostly a flush whose predecessor completed in the other slot; sometimes the very first
+        // flush of a fresh directory (one slot has never been written then)
+        "C10" => Crash::EnumerateFlush {
+            phase: if rng.chance(1, 5) { 0 } else { rng.range(1, n_phases as u64 - 1) as usize },
+        },
         "C18" => {
             if rng.chance(1, 5) {
                 Crash::CleanStop
